@@ -555,6 +555,114 @@ func c18Chars(c *Ctx) {
 
 // c18Context: R6 - words that are identifiers of the compact language are keywords of the expanded language only in context.
 func c18Context(c *Ctx) {
+	// ---- R7 the rewriters keep no state between sources
+	c.rule("C18-R7", "WCS: no function of pkg/formatter other than package initialisation (init, a sync.Once body) stores into a package-level variable: expanding, compacting or formatting a source is a function of that source alone - `glyph expand <dir>`, `compact <dir>` and watch mode rewrite many files in one process, and a cursor, depth or table left over from the previous file changes how the next one is rewritten")
+	{
+		nFns, nStores := 0, 0
+		for _, fn := range c.srcFuncs(fmtPkg) {
+			tp := topParent(fn)
+			if nm := tp.Name(); nm == "init" || strings.HasPrefix(nm, "init#") {
+				continue
+			}
+			nFns++
+			onceBody := false
+			if fn.Parent() != nil {
+				for _, r := range *fn.Referrers() {
+					_ = r
+				}
+			}
+			k := 0
+			eachInstr(fn, func(_ *ssa.BasicBlock, _ int, ins ssa.Instruction) {
+				var addr ssa.Value
+				switch x := ins.(type) {
+				case *ssa.Store:
+					addr = x.Addr
+				case *ssa.MapUpdate:
+					if u, ok := x.Map.(*ssa.UnOp); ok {
+						addr = u.X
+					}
+				}
+				if addr == nil {
+					return
+				}
+				base := addr
+				for {
+					switch y := base.(type) {
+					case *ssa.FieldAddr:
+						base = y.X
+						continue
+					case *ssa.IndexAddr:
+						base = y.X
+						continue
+					}
+					break
+				}
+				g, ok := base.(*ssa.Global)
+				if !ok || g.Pkg != fn.Pkg {
+					return
+				}
+				if onceBody || isOnceBody(fn) {
+					return
+				}
+				nStores++
+				k++
+				c.ob("C18-R7", fnKey(fn)+"#writes-package-variable-"+g.Name()+"-"+itoa(k), ins.Pos(), false, "the rewriter stores into the package-level variable "+g.Name()+" while processing a source: what it leaves there is seen by the next source rewritten in this process (directory and watch mode), so the result for a file depends on which file came before it")
+			})
+		}
+		c.Sites["C18-R7#formatter-functions"] = nFns
+		c.ob("C18-R7", fmtPkg+"#rewriters-are-stateless", token.NoPos, nFns >= 8, "fewer than 8 functions found in pkg/formatter")
+	}
+
+	// ---- R8 the rewriters move bytes, they do not re-encode text
+	c.rule("C18-R8", "WCS: no function of pkg/formatter passes source text through a rune-level re-encoding (strings.Map / bytes.Map, ToValidUTF8, ToUpper/ToLower/Title, a string->[]rune->string round trip, or a `for _, r := range text` loop that writes r back with WriteRune/string(r)): the lexer works on bytes and accepts bytes that are not valid UTF-8 inside strings and comments, and re-encoding turns each of them into U+FFFD (and a strings.Map that drops a rune drops it inside string literals too) - the STRING tokens change although `fmt` promises layout only")
+	{
+		n := 0
+		for _, fn := range c.srcFuncs(fmtPkg) {
+			k := 0
+			eachInstr(fn, func(_ *ssa.BasicBlock, _ int, ins ssa.Instruction) {
+				bad := ""
+				switch x := ins.(type) {
+				case *ssa.Call:
+					switch nm := callName(x); nm {
+					case "strings.Map", "bytes.Map", "strings.ToValidUTF8", "bytes.ToValidUTF8", "strings.ToUpper", "strings.ToLower", "strings.Title", "strings.ToTitle", "bytes.ToUpper", "bytes.ToLower", "bytes.Runes":
+						// case folding of a single extracted word for a table lookup is not a rewrite of the source:
+						// only flag when the result can reach a return value / a Builder write
+						if flowsToOutput(x) {
+							bad = short(nm)
+						}
+					}
+				case *ssa.Convert:
+					// string -> []rune
+					if sl, ok := x.Type().Underlying().(*types.Slice); ok {
+						if bt, ok := sl.Elem().Underlying().(*types.Basic); ok && bt.Kind() == types.Int32 && isStringType(x.X.Type()) {
+							bad = "[]rune(text)"
+						}
+					}
+				case *ssa.Range:
+					if isStringType(x.X.Type()) {
+						// the decoded runes are written back
+						for _, r := range refs(x) {
+							if nx, ok := r.(*ssa.Next); ok && nx.IsString {
+								for _, e := range extractOf(nx, 2) {
+									if flowsToOutput(e) {
+										bad = "range over the text with the decoded runes written back"
+									}
+								}
+							}
+						}
+					}
+				}
+				n++
+				if bad != "" {
+					k++
+					c.ob("C18-R8", fnKey(fn)+"#text-is-not-re-encoded-"+itoa(k), ins.Pos(), false, "source text goes through "+bad+": bytes that are not valid UTF-8 (a Latin-1 file: \"caf\\xe9\") come out as U+FFFD and a dropped rune is dropped inside string literals too, so the rewritten file no longer has the same tokens")
+				}
+			})
+		}
+		c.Sites["C18-R8#instructions-examined"] = n
+		c.ob("C18-R8", fmtPkg+"#rewriters-do-not-re-encode", token.NoPos, n > 100, "pkg/formatter has fewer than 100 instructions: not loaded")
+	}
+
 	c.rule("C18-R6", "CTX: every expanded keyword (a value of symbolToKeyword) that the compact lexer lexes as a plain identifier is turned into its symbol token by ExpandedLexer.readIdentifier only under a test of the lexer's context (previous token / statement start), not for every occurrence of the word: `input.type`, `/cron/status`, an object key `type:` or a variable named `queue` are identifiers in the compact source, so an expanded text that contains them must still lex them as identifiers, or expand() of a valid program does not parse back to the same tree")
 	s2k, _ := stringMapLiteral(c, fmtPkg, "symbolToKeyword")
 	if len(s2k) == 0 {
@@ -631,4 +739,68 @@ func c18Context(c *Ctx) {
 		return
 	}
 	c.ob("C18-R6", fnKey(ri)+"#keywords-recognised-in-context", ri.Pos(), len(free) == 0, "the expanded lexer turns the words {"+strings.Join(free, ", ")+"} into symbol tokens wherever they occur, but in the compact language they are ordinary identifiers (field names, path segments, variables): expanding a program that uses one of them as a name gives text that does not parse, or parses to another tree, and compact() rewrites an object key `type:` into `::`")
+}
+
+// isOnceBody: fn is a closure passed to sync.Once.Do.
+func isOnceBody(fn *ssa.Function) bool {
+	if fn.Parent() == nil {
+		return false
+	}
+	found := false
+	eachInstr(fn.Parent(), func(_ *ssa.BasicBlock, _ int, ins ssa.Instruction) {
+		call, ok := ins.(ssa.CallInstruction)
+		if !ok || callName(call) != "sync.Once.Do" {
+			return
+		}
+		if mc, ok := call.Common().Args[1].(*ssa.MakeClosure); ok && mc.Fn == ssa.Value(fn) {
+			found = true
+		}
+		if f, ok := call.Common().Args[1].(*ssa.Function); ok && f == fn {
+			found = true
+		}
+	})
+	return found
+}
+
+// flowsToOutput: v (transitively through string operations, phis, conversions and calls that take it as an
+// argument) reaches a return value, a strings.Builder / bytes.Buffer write, an append or a store.
+func flowsToOutput(v ssa.Value) bool {
+	seen := map[ssa.Value]bool{}
+	var walk func(x ssa.Value, d int) bool
+	walk = func(x ssa.Value, d int) bool {
+		if x == nil || seen[x] || d > 12 {
+			return false
+		}
+		seen[x] = true
+		for _, r := range refs(x) {
+			switch y := r.(type) {
+			case *ssa.Return, *ssa.Store, *ssa.MapUpdate, *ssa.Send:
+				return true
+			case *ssa.Call:
+				nm := callName(y)
+				if strings.Contains(nm, "Builder.Write") || strings.Contains(nm, "Buffer.Write") || nm == "builtin.append" {
+					return true
+				}
+				// lookups and comparisons consume the value without emitting it
+				if nm == "builtin.len" || strings.HasPrefix(nm, "strings.Has") || strings.HasPrefix(nm, "strings.Contains") || strings.HasPrefix(nm, "strings.Index") || strings.HasPrefix(nm, "strings.Equal") {
+					continue
+				}
+				if walk(y, d+1) {
+					return true
+				}
+			case *ssa.Lookup, *ssa.If:
+				continue
+			case *ssa.BinOp:
+				if y.Op == token.ADD && walk(y, d+1) {
+					return true
+				}
+			case ssa.Value:
+				if walk(y, d+1) {
+					return true
+				}
+			}
+		}
+		return false
+	}
+	return walk(v, 0)
 }
